@@ -33,8 +33,8 @@ fn dbg_of(v: &RVal) -> String {
 // ---------------------------------------------------------------------------------------------
 // HeaderBuilder
 
-#[derive(Clone, Debug)]
-enum HOp {
+#[derive(Clone, Debug, PartialEq)]
+pub enum HOp {
     Alg(i64),
     Crit(i64),
     CritLabel(RLabel),
@@ -48,7 +48,7 @@ enum HOp {
     TextValue(&'static str, Item),
 }
 
-fn header_ops() -> Vec<HOp> {
+pub fn header_ops() -> Vec<HOp> {
     let mut v = vec![
         HOp::Alg(-7),
         HOp::Alg(1),
@@ -76,7 +76,7 @@ fn header_ops() -> Vec<HOp> {
     v
 }
 
-fn header_step(m: &RHeader, op: &HOp) -> Step<RHeader> {
+pub fn header_step(m: &RHeader, op: &HOp) -> Step<RHeader> {
     let mut m = m.clone();
     match op {
         HOp::Alg(a) => m.alg = Some(l_int(*a)),
@@ -105,7 +105,7 @@ fn header_step(m: &RHeader, op: &HOp) -> Step<RHeader> {
     Step::Next(m)
 }
 
-fn header_real(ops: &[HOp], hist: &[usize]) -> Real {
+pub fn header_real(ops: &[HOp], hist: &[usize]) -> Real {
     let r = catch(|| {
         let mut bld = HeaderBuilder::new();
         for h in hist {
@@ -129,6 +129,29 @@ fn header_real(ops: &[HOp], hist: &[usize]) -> Real {
         Ok(d) => Real::Built(d),
         Err(p) => Real::Panicked(p),
     }
+}
+
+/// The HeaderBuilder search on its own (also used by the explorer cross-check at setup).
+pub fn header_builder_search(rep: &Report, pid: &str, depth: usize, cap: usize) -> (u64, u64) {
+    let ops = header_ops();
+    let spec = Spec {
+        pid,
+        name: "HeaderBuilder",
+        inits: vec![("new()".to_string(), RHeader::default())],
+        nops: ops.len(),
+        op_name: &|i| format!("{:?}", ops[i]),
+        step: &|m, i| header_step(m, &ops[i]),
+        key: &|m| format!("{:?}", m),
+        expect: &|m| dbg_of(&RVal::Header(m.clone())),
+        real: &|_init, hist| header_real(&ops, hist),
+        on_state: Some(&|m: &RHeader, _i, _h, l| {
+            // invariant: a built header never carries both an IV and a Partial IV
+            if !m.iv.is_empty() && !m.partial_iv.is_empty() {
+                l.viol(crate::mc::Viol { key: "C19:MODEL-iv-and-partial-iv".into(), space: "bfs.HeaderBuilder".into(), case: format!("{:?}", m), direct: None, expected: "never both".into(), observed: "both".into() });
+            }
+        }),
+    };
+    bfs::run(rep, &spec, depth, cap)
 }
 
 // ---------------------------------------------------------------------------------------------
@@ -399,27 +422,7 @@ pub fn explore(ex: &Ex) {
     let cap = ex.pick(20_000usize, 2_000_000, 30_000_000);
 
     // HeaderBuilder
-    {
-        let ops = header_ops();
-        let spec = Spec {
-            pid: ex.pid,
-            name: "HeaderBuilder",
-            inits: vec![("new()".to_string(), RHeader::default())],
-            nops: ops.len(),
-            op_name: &|i| format!("{:?}", ops[i]),
-            step: &|m, i| header_step(m, &ops[i]),
-            key: &|m| format!("{:?}", m),
-            expect: &|m| dbg_of(&RVal::Header(m.clone())),
-            real: &|_init, hist| header_real(&ops, hist),
-            on_state: Some(&|m: &RHeader, _i, _h, l| {
-                // invariant: a built header never carries both an IV and a Partial IV
-                if !m.iv.is_empty() && !m.partial_iv.is_empty() {
-                    l.viol(crate::mc::Viol { key: "C19:MODEL-iv-and-partial-iv".into(), space: "bfs.HeaderBuilder".into(), case: format!("{:?}", m), direct: None, expected: "never both".into(), observed: "both".into() });
-                }
-            }),
-        };
-        bfs::run(ex.rep, &spec, depth_big, cap);
-    }
+    header_builder_search(ex.rep, ex.pid, depth_big, cap);
     // CoseKeyBuilder
     {
         let ops = key_ops();
